@@ -38,6 +38,11 @@ type EmbedFull struct {
 	EX int
 	ey string
 }
+type EmbedPtr struct {
+	PX int
+}
+type EmbedIface interface{ Local() int }
+type EmbedNamed float64
 func fnA(x int) string { return "a" }
 func fnB(x int) string { return "b" }
 func fnC() {}
@@ -333,7 +338,7 @@ func (f field) plainPublic() bool {
 // etc fp.Option[string]} -> NewRequiredArgs(hello string)): an applied field that is neither a pointer nor an
 // fp.Option.
 func (f field) required() bool {
-	return f.applied() && f.t.kind != "pointer" && !f.t.isOption
+	return f.applied() && f.t.kind != "pointer" && f.t.kind != "embedded-pointer" && !f.t.isOption
 }
 
 func (f field) applied() bool {
@@ -493,7 +498,27 @@ func drawStruct(t *rapid.T, idx int, exclFragile map[string]bool, forceJson bool
 		case "underscore":
 			f.name = pick(underscoreNames, "uname")
 		case "embedded":
-			if used["embedempty"] && used["embedfull"] {
+			// embedded fields that are not structs: a pointer to a struct, an interface, a named non-struct type
+			if k := rapid.IntRange(0, 5).Draw(t, "embedKind"); k <= 2 && !used[[]string{"embedptr", "embediface", "embednamed"}[k]] {
+				used[[]string{"embedptr", "embediface", "embednamed"}[k]] = true
+				switch k {
+				case 0:
+					f = field{name: "EmbedPtr", embedded: true, t: ty{expr: "*EmbedPtr", kind: "embedded-pointer", lit: func(t *rapid.T) string {
+						if rapid.Bool().Draw(t, "nilEmbedPtr") {
+							return "nil"
+						}
+						return "&EmbedPtr{PX: " + intLit(t) + "}"
+					}}}
+				case 1:
+					f = field{name: "EmbedIface", embedded: true, t: ty{expr: "EmbedIface", kind: "embedded-interface", lit: func(t *rapid.T) string {
+						return rapid.SampledFrom([]string{"nil", "localImpl(6)", "localImpl(7)"}).Draw(t, "embedIface")
+					}}}
+				default:
+					f = field{name: "EmbedNamed", embedded: true, t: ty{expr: "EmbedNamed", kind: "embedded-named", lit: func(t *rapid.T) string {
+						return rapid.SampledFrom([]string{"EmbedNamed(0)", "EmbedNamed(1.5)", "EmbedNamed(-2)"}).Draw(t, "embedNamed")
+					}}}
+				}
+			} else if used["embedempty"] && used["embedfull"] {
 				f.name = pick(safeNames, "fname")
 			} else if !used["embedempty"] && (used["embedfull"] || rapid.Bool().Draw(t, "emptyEmbed")) {
 				used["embedempty"] = true
